@@ -27,6 +27,10 @@ var Families = map[string][]string{
 // Generate builds the scenario for (property, family, seed).
 func Generate(prop, family string, seed uint64, tier string) Scenario {
 	sc := generate(prop, family, seed, tier)
+	// log level is a knob like any other: behaviour must not depend on it
+	if !sc.Cfg.Debug && (seed>>7)%3 == 0 {
+		sc.Cfg.LogErrorsOnly = true
+	}
 	if prop == "C10" {
 		if sc.Extra == nil {
 			sc.Extra = map[string]int{}
